@@ -63,6 +63,9 @@ func c02Case(c *Ctx) *Result {
 	if c.Idx%40 == 39 {
 		fam = "window"
 	}
+	if c.Idx%10 == 7 {
+		fam = "slow" // long quiet periods and slow one-way transfers on a healthy network
+	}
 	nsess := pick(r, 1, 1, 1, 2, 3, 4)
 	mtuC, mtuS := pick(r, mtuSet...), pick(r, mtuSet...)
 	patC := genPattern(r, r.Intn(4) == 0)
@@ -103,6 +106,30 @@ func c02Case(c *Ctx) *Result {
 		if fam == "window" {
 			p.ReadPause[0] = &Pause{AfterBytes: 1 << 20, Dur: time.Duration(1+r.Intn(9)) * time.Second}
 			p.R[0] = []int{65536}
+		}
+		if fam == "slow" {
+			oneWay := r.Intn(2)
+			gap := pick(r, 7000, 20000, 65000, 125000)
+			n := 150000/gap + 2
+			p.W[oneWay] = nil
+			p.GapMs[oneWay] = nil
+			for k := 0; k < n; k++ {
+				p.W[oneWay] = append(p.W[oneWay], 1+r.Intn(3000))
+				g := gap
+				if k == 0 {
+					g = 0 // the session is opened (first write) right after dialling
+				}
+				p.GapMs[oneWay] = append(p.GapMs[oneWay], g)
+			}
+			if oneWay == 1 {
+				p.W[0] = []int{1} // the client must open the session
+			} else {
+				p.W[1] = nil
+			}
+			if r.Intn(2) == 0 { // or two-way with the same quiet periods
+				p.W[1-oneWay] = append([]int(nil), p.W[oneWay]...)
+				p.GapMs[1-oneWay] = append([]int(nil), p.GapMs[oneWay]...)
+			}
 		}
 		plans[i] = p
 	}
@@ -173,7 +200,7 @@ func c02Case(c *Ctx) *Result {
 	res.Obs["sessions"] = float64(nsess)
 	faultsHit := res.Obs["datagrams_dropped"] + res.Obs["datagrams_duplicated"] + res.Obs["datagrams_delayed"]
 	res.Shape = shapeHash(fam, nsess, mtuC, mtuS, patClass(env.PatCE), patClass(env.PatSE), fp.hitClass(), faultsHit > 0)
-	res.Trivial = total == 0 || (fam != "window" && faultsHit == 0)
+	res.Trivial = total == 0 || (fam != "window" && fam != "slow" && faultsHit == 0)
 	if timedOut && !isVirtual {
 		res.Verdict, res.Detail = Inconclusive, "real-time watchdog fired"
 		return res
@@ -182,7 +209,7 @@ func c02Case(c *Ctx) *Result {
 	if sig == "" && timedOut {
 		sig, detail = "stalled", "transfer under a fair fault plan did not finish within 3600 virtual seconds"
 	}
-	if sig == "" && isVirtual && stall > 120*time.Second {
+	if sig == "" && isVirtual && stall > 120*time.Second && fam != "slow" {
 		sig, detail = "no-progress-120s", fmt.Sprintf("no application progress for %v while the network kept delivering", stall)
 	}
 	if sig != "" {
